@@ -273,6 +273,7 @@ func (c *ctxT) wdlHist(ops []string) {
 				cancel()
 				t.cst.mu.Lock()
 				t.cst.hold = true
+				t.cst.opBase = t.cst.nDone
 				t.cst.mu.Unlock()
 				x = t.txCtx(ctx, name, n)
 			case 'k':
